@@ -126,7 +126,7 @@ def boundary_enum(step):
     def gen():
         refs = G.boundary_refs()
         for i, r in enumerate(refs):
-            if i % step == 0:
+            if i % step == 0 or (r.month, r.day) in ((2, 29), (12, 31), (1, 1)):
                 for case in all_families(r.isoformat(), carrier_i=i):
                     yield case
     return gen
